@@ -81,3 +81,37 @@ def run_text(name, source, debug=0, added_value=None, monitor=False, keep_tokens
         o.kind, o.detail, o.site = "exc", type(e).__name__, site_of(e)
     o.errors = errors_of(f)
     return o
+
+
+def wellformed_violations(f, source):
+    """C08(c): every emitted diagnostic has a catalogue code with the catalogue text, a level Error/Notice,
+    at least one highlight, 1 <= line <= number of lines of the source, column >= 1"""
+    from norminette.norm_error import errors as CAT
+    from symx.poly import feasible, lt, gt, c_or, conc
+    out = []
+    nl = 0
+    last = None
+    for ch in source:
+        last = ch
+        if ch == "\n":
+            nl += 1
+    nlines = nl + (0 if (last is None or last == "\n") else 1)
+    nlines = max(nlines, 1)
+    for e in f.errors._inner:
+        name = e.name
+        if not isinstance(name, str):
+            name = conc(name)
+        if name not in CAT:
+            out.append((f"C08:catalogue:unknown-code:{name}", f"diagnostic code {name!r} is not in the published catalogue"))
+        elif not (e.text == CAT[name]):
+            out.append((f"C08:catalogue:text:{name}", f"text of {name} differs from the catalogue text"))
+        if e.level not in ("Error", "Notice"):
+            out.append((f"C08:level:{name}", f"{name} has level {e.level!r}"))
+        if not e.highlights:
+            out.append((f"C08:no-position:{name}", f"{name} carries no position"))
+            continue
+        h = e.highlights[0]
+        cond = c_or(lt(h.lineno, 1), gt(h.lineno, nlines), lt(h.column, 1))
+        if feasible(cond):
+            out.append((f"C08:position-outside-file:{name}", f"{name} is located outside the file (line {conc(h.lineno)}, column {conc(h.column)}, file has {nlines} lines)"))
+    return out
